@@ -1,10 +1,12 @@
 from __future__ import annotations
 
-from typing import TYPE_CHECKING
+from typing import TYPE_CHECKING, Any, Callable, TypeVar
 
 import numpy as np
 from numpy.random import default_rng
 
+from ropt.enums import OptimizerExitCode
+from ropt.exceptions import OptimizationAborted
 from ropt.results import (
     ConstraintInfo,
     FunctionEvaluations,
@@ -43,6 +45,9 @@ if TYPE_CHECKING:
     from ropt.plugins.realization_filter.base import RealizationFilter
     from ropt.plugins.sampler.base import Sampler
     from ropt.transforms import OptModelTransforms
+
+
+T = TypeVar("T")
 
 
 class EnsembleEvaluator:
@@ -163,6 +168,7 @@ class EnsembleEvaluator:
         (
             objective_weights,
             constraint_weights,
+            filters_ok,
         ) = self._calculate_filtered_realization_weights(f_eval_results)
 
         assert self._config.gradient.perturbation_min_success is not None
@@ -173,11 +179,12 @@ class EnsembleEvaluator:
         )
 
         assert self._config.realizations.realization_min_success is not None
-        if (
+        if filters_ok and (
             np.count_nonzero(~failed_realizations)
             >= self._config.realizations.realization_min_success
         ):
-            functions = self._compute_functions(
+            functions = _none_if_too_few(
+                self._compute_functions,
                 f_eval_results.objectives,
                 f_eval_results.constraints,
                 objective_weights,
@@ -255,7 +262,8 @@ class EnsembleEvaluator:
             np.count_nonzero(~failed_realizations)
             >= self._config.realizations.realization_min_success
         ):
-            gradients = self._compute_gradients(
+            gradients = _none_if_too_few(
+                self._compute_gradients,
                 variables,
                 mask,
                 perturbed_variables,
@@ -320,6 +328,7 @@ class EnsembleEvaluator:
         (
             objective_weights,
             constraint_weights,
+            filters_ok,
         ) = self._calculate_filtered_realization_weights(
             f_eval_results,
         )
@@ -331,11 +340,12 @@ class EnsembleEvaluator:
             self._config.gradient.perturbation_min_success,
         )
         assert self._config.realizations.realization_min_success is not None
-        if (
+        if filters_ok and (
             np.count_nonzero(~failed_realizations)
             >= self._config.realizations.realization_min_success
         ):
-            functions = self._compute_functions(
+            functions = _none_if_too_few(
+                self._compute_functions,
                 f_eval_results.objectives,
                 f_eval_results.constraints,
                 objective_weights,
@@ -369,11 +379,12 @@ class EnsembleEvaluator:
             self._config.gradient.perturbation_min_success,
         )
         assert self._config.realizations.realization_min_success is not None
-        if (
+        if filters_ok and (
             np.count_nonzero(~failed_realizations)
             >= self._config.realizations.realization_min_success
         ):
-            gradients = self._compute_gradients(
+            gradients = _none_if_too_few(
+                self._compute_gradients,
                 variables,
                 mask,
                 perturbed_variables,
@@ -533,7 +544,9 @@ class EnsembleEvaluator:
 
     def _calculate_filtered_realization_weights(
         self, evaluator_results: _FunctionEvaluatorResults
-    ) -> tuple[NDArray[np.float64] | None, NDArray[np.float64] | None]:
+    ) -> tuple[NDArray[np.float64] | None, NDArray[np.float64] | None, bool]:
+        # The final item of the result is `False` if a filter found too few
+        # realizations to calculate the weights.
         objective_weights: NDArray[np.float64] | None = None
         constraint_weights: NDArray[np.float64] | None = None
 
@@ -560,9 +573,11 @@ class EnsembleEvaluator:
             ):
                 continue
 
-            weights = realization_filter.get_realization_weights(
-                objectives, constraints
+            weights = _none_if_too_few(
+                realization_filter.get_realization_weights, objectives, constraints
             )
+            if weights is None:
+                return None, None, False
             if apply_to_objectives is not None:
                 if objective_weights is None:
                     objective_weights = np.tile(
@@ -578,7 +593,7 @@ class EnsembleEvaluator:
                         (self._config.nonlinear_constraints.lower_bounds.size, 1),
                     )
                 constraint_weights[apply_to_constraints, :] = weights
-        return objective_weights, constraint_weights
+        return objective_weights, constraint_weights, True
 
     def _init_realization_filters(
         self, plugin_manager: PluginManager
@@ -614,6 +629,18 @@ class EnsembleEvaluator:
                 )
                 samplers.append(plugin.create(self._config, idx, variable_indices, rng))
         return samplers
+
+
+def _none_if_too_few(function: Callable[..., T], *args: Any) -> T | None:  # noqa: ANN401
+    # Filters and function estimators abort with TOO_FEW_REALIZATIONS if they
+    # cannot produce a value. In that case no functions or gradients can be
+    # reported, but the evaluation results themselves are still valid.
+    try:
+        return function(*args)
+    except OptimizationAborted as exc:
+        if exc.exit_code != OptimizerExitCode.TOO_FEW_REALIZATIONS:
+            raise
+        return None
 
 
 def _get_mask(
